@@ -390,6 +390,8 @@ func (a *Analyzer) Feed(r *ev.Rec) {
 		a.onServing(n, r, true)
 	case "served":
 		a.onServing(n, r, false)
+	case "exclusive":
+		a.onExclusive(n, r)
 	case "serve-exit":
 		a.onServeExit(n, r)
 	case "shutting-down":
